@@ -533,7 +533,10 @@ def includeErrorObj (ieh : Option Bool) (e : ExcObj) : ErrTrace :=
 With `<%inherit>` (and includes, namespaces) the callable runs on a *copy* of the caller's `Context`; the copy
 holds the **same list object** in `_buffer_stack`.  `_render_error` must therefore replace the content of that
 list in place (`context._buffer_stack[:] = [fresh]`): every alias – in particular the context `_render` pops the
-result from – then sees the one fresh buffer with the error page. -/
+result from – then sees the one fresh buffer with the error page.
+
+This heap model is separate from `exec` / `execTemplate` above, which work on a single `St` (one context, no
+copies); it is tied to the implementation by the stream `corr.shared_stack` of the C13 check. -/
 
 /-- a heap of buffer-stack objects; a context refers to one of them -/
 structure CtxHeap where
@@ -546,7 +549,9 @@ structure CtxRef where
 
 def CtxHeap.stackOf (h : CtxHeap) (c : CtxRef) : List (Nat × Str) := (h.stacks[c.stack]?).getD []
 
-/-- `Context._copy()`: a new context object, the same `_buffer_stack` list -/
+/-- `Context._copy()`: a new context object, the same `_buffer_stack` list – in this model a context *is* its
+    reference to the list, so the copy is the same value; the point of the model is that `renderErrorHeap` updates
+    the list object and not the reference -/
 def CtxRef.copy (c : CtxRef) : CtxRef := ⟨c.stack⟩
 
 /-- `_render_error` under `format_exceptions`: the list the failing context refers to is emptied and gets one
